@@ -82,6 +82,16 @@ def c10_build(valid, unit, v, r, new_id):
     return c.line(new_id)
 
 
+def c10_plan_request(valid, unit, v, r):
+    """model-driver request for the SPEC's plan script of this (base, stage, vector, r) — see props/families/valve.py;
+    theorems C10_gs3_query_* (Props/C10_gs3_whole.lean).  Only for cases straight from `gen gs3`."""
+    import re
+    m = re.fullmatch(r"g(\d+)_(\d+)", valid.id)
+    if not m:
+        return None
+    return f"gs3plan {m.group(1)} {m.group(2)} {r} {unit} {v}"
+
+
 def c10_attempts(valid, unit, sends, clean):
     """attempts seen on the wire = handshake requests sent (every attempt starts with one)"""
     return sum(1 for (_, _, data, _) in sends if data.startswith(HANDSHAKE))
